@@ -369,6 +369,55 @@ def r5_individual(ctx):
                           f"{g.cfg.name}: `{name}` compared by the individual sampler of `{v}` is {ax}: a decision would depend on other individuals", instance=f"{g.cfg.name}:{v}")
 
 
+def _reduces_over_individuals(node) -> list:
+    """calls in `node` that reduce / normalise over axis 0 (the individual axis of per-individual values) or over all axes"""
+    out = []
+    for c in ast.walk(node):
+        if not isinstance(c, ast.Call):
+            continue
+        name = c.func.attr if isinstance(c.func, ast.Attribute) else U(c.func).split(".")[-1]
+        if name not in ("sum", "mean", "prod", "max", "min", "amax", "amin", "logsumexp", "softmax", "Softmax", "std", "var", "median", "cumsum", "norm"):
+            continue
+        d = kwarg(c, "dim") if kwarg(c, "dim") is not None else kwarg(c, "axis")
+        pos = [a for a in c.args if isinstance(a, ast.Constant) and isinstance(a.value, int)]
+        dim = U(d) if d is not None else (str(pos[0].value) if pos and isinstance(c.func, ast.Attribute) else None)
+        is_tensor_call = isinstance(c.func, ast.Attribute) or U(c.func).startswith(("torch.", "np."))
+        if not is_tensor_call:
+            continue
+        if dim in ("0", "LVL_IND", "(0,)", "[0]") or (dim is None and name in ("sum", "mean", "prod", "max", "min", "std", "var", "median", "norm") and not c.args[1:] and isinstance(c.func, ast.Attribute) is False):
+            out.append(c)
+    return out
+
+
+def r5b_no_cross_individual_weights(ctx):
+    """Whatever the individual sampler multiplies its per-individual terms with (cluster responsibilities of the mixture model ...) must be
+    per-individual too: a quantity reduced over the individual axis makes D_i depend on the other individuals' values."""
+    ctx.rule("C03.R5b", "the individual sampler uses no quantity reduced over the individual axis (directly or through a helper fed with the state)", 1)
+    sfs = [sf for sf in sample_functions(ctx.ix, "C03.R5b") if sf.kind == "individual"]
+    if not sfs:
+        raise AnalysisError("C03.R5b", "individual sampler not found")
+    sf = sfs[0]
+    f = sf.f
+    for c in _reduces_over_individuals(f.node):
+        ctx.violation("C03.R5b", f, c, f"`{U(c)[:70]}` reduces over the individual axis inside the individual sampler: every individual's decision then depends on the others")
+    helpers = []
+    for c in ast.walk(f.node):
+        if isinstance(c, ast.Call) and any(isinstance(a, ast.Name) and a.id == sf.state for a in list(c.args) + [k.value for k in c.keywords]) \
+                and not (isinstance(c.func, ast.Attribute) and U(c.func.value) in (sf.state, "self")):
+            nm = U(c.func).split(".")[-1]
+            cands = [g for g in ctx.ix.iter_funcs() if g.name == nm and g.cls is None]
+            helpers.append((c, nm, cands))
+    for c, nm, cands in helpers:
+        if not cands:
+            ctx.unknown("C03.R5b", f, c, f"`{U(c)[:60]}` hands the state to `{nm}`, which is not a function of the repository")
+            continue
+        red = [r for g in cands for r in _reduces_over_individuals(g.node)]
+        ctx.check(not red, "C03.R5b", f, c, f"helper `{nm}` keeps the individual axis",
+                  f"`{U(c)[:60]}`: `{nm}` computes `{U(red[0])[:60] if red else ''}`, a quantity reduced over the individuals; used as a weight of the per-individual terms it makes each "
+                  "individual's acceptance depend on the other individuals' current and proposed values")
+    ctx.ok("C03.R5b", f, f.node, f"{len(helpers)} helper call(s) fed with the state; no reduction over the individual axis in the sampler", construct="def sample (individual)")
+
+
 def rules(ctx):
     r1_exponent(ctx)
     r1c_no_inplace(ctx)
@@ -376,6 +425,7 @@ def rules(ctx):
     r3_proposal(ctx)
     r4_terms(ctx)
     r5_individual(ctx)
+    r5b_no_cross_individual_weights(ctx)
     ctx.trust("torch.exp / torch.rand / torch.randn semantics; sympy expand")
 
 
